@@ -10,6 +10,9 @@ Decided (structural bookkeeping, every ingest history):
         LocatedAddress derives Ord with `id` as its first field; Transaction::commit builds the
         committed set from self.heads (BTreeMap keyed by CmdId) only through HeadSet::push, and
         ClientState::action through HeadSet::single.
+ R4 K1+K6 rejection path (shared with C06-R7): a fresh perspective left empty by a rejected command is
+        un-installed, and the in-flight perspective is dropped only on the `includes(parent) == false`
+        edge - otherwise accepted tips vanish from the committed head set.
 Not decided: that this bookkeeping equals the true frontier for every history (value-level)."""
 from rules.core import pat
 from rules.core.facts import Operand, PASS_THROUGH, Place
@@ -134,3 +137,5 @@ def run(F, rep, tier):
     arg_ok = bool(ch) and any(k == "call" and (x.name == "default" or x.name == "push") for k, x in cm.backward_sources(ch[0].args[1].place.local, through_calls="*", max_depth=30)[1])
     rep.check(bool(pushes) and names <= {"push", "iter", "default", "len", "is_empty", "as_slice"} and src_ok and arg_ok, "commit|head-set-built-by-push", "K3 who-may-write",
               "Transaction::commit builds the committed HeadSet from self.heads only through HeadSet::push", site=cm.site())
+    from rules.props import C06 as _c06
+    _c06.check_install_fill(F, rep)
